@@ -216,9 +216,12 @@ def transitions(table):
     return out
 
 
-def refine_limits(ctx, janet, table, stack_kb, timeout, env, label):
-    """bisect every ok->err transition to the exact guard depth T and run T-2..T+2 there"""
+def refine_limits(ctx, janet, table, stack_kb, timeout, env, label, keep=None):
+    """bisect every ok->err transition to the exact guard depth T and run T-2..T+2 there
+    (keep: restrict to these (consumer, kind) pairs - quick tier: first kind of every consumer and the suspects)"""
     tr = transitions(table)
+    if keep is not None:
+        tr = {k: v for k, v in tr.items() if k in keep}
     crashes = []
     limits = {}
 
@@ -398,7 +401,12 @@ def run(ctx, only=None):
             st = csm.extract(ctx.build, g)
             ctx.gen("DepthStack.lean", csm.render(st, g))
             tot, parts = csm.budget(st, g)
-            ctx.say("stack budget: %d of %d bytes (%d functions outside cycles %d B, %d inlined, unbounded dynamic frames outside cycles: %s); "
+            ctx.say("stack budget along the heaviest SCC-DAG path: %d of %d bytes (%s)" % (
+                st.dag_total, csm.STACK_LIMIT, " -> ".join("%s %d" % (p[1], p[2]) for p in st.dag_path)))
+            if st.dag_total >= csm.STACK_LIMIT:
+                broken.append("native stack budget along the SCC DAG %d >= %d bytes [theorem cg_dag_budget_ok]" % (st.dag_total, csm.STACK_LIMIT))
+                ctx.broken.append(broken[-1])
+            ctx.say("stack budget (all SCCs summed): %d of %d bytes (%d functions outside cycles %d B, %d inlined, unbounded dynamic frames outside cycles: %s); "
                     "largest classes: %s" % (tot, csm.STACK_LIMIT, st.transit_n, st.transit, len(st.inlined), st.unbounded,
                                              ", ".join("%s %d" % kv for kv in sorted(parts.items(), key=lambda kv: -kv[1])[:4])))
             for kind, fn, ok in st.sites + [("gc->funcdef", "janet_mark_funcdef", st.funcdef_charged)]:
@@ -472,9 +480,11 @@ def run(ctx, only=None):
             if cap:
                 t = min(t, cap)
             jobs.append((c, k, [d for d in sched if d <= t]))
+    jobs.sort(key=lambda j: (-max(j[2]), j[0], j[1]))      # deepest sweeps first: no long job left for the end of the pool
     env = dict(os.environ, ASAN_OPTIONS="detect_leaks=0:abort_on_error=0:detect_stack_use_after_return=0")
     all_crashes, tables, guard_limits = [], {}, {}
-    configs = [("plain-8MB", v["janet"], 8192), ("plain-1MB", v["janet"], 1024)]
+    # quick tier: the verdict configuration only; the 1 MB stack (informational) and ASan run in the thorough tier
+    configs = [("plain-8MB", v["janet"], 8192)] + ([] if quick else [("plain-1MB", v["janet"], 1024)])
     if not quick:
         va = ctx.try_variant("asan")
         if va:
@@ -488,7 +498,10 @@ def run(ctx, only=None):
             firsts = set((c, CONSUMERS[c][0][0]) for c in CONSUMERS)
             js = [(c, k, [d for d in ds if d <= 2 ** 15]) for c, k, ds in jobs if not quick or (c, k) in firsts]
         table, crashes = sweep(ctx, janet, js, kb, 600, env, label)
-        lim, cr2 = refine_limits(ctx, janet, table, kb, 600, env, label)
+        keep = None
+        if quick:
+            keep = set((c, CONSUMERS[c][0][0]) for c in CONSUMERS) | set((c, k) for c, k, _ in jobs if c in suspects)
+        lim, cr2 = refine_limits(ctx, janet, table, kb, 600, env, label, keep)
         tables[label] = table
         guard_limits[label] = lim
         all_crashes += crashes + cr2
@@ -583,7 +596,8 @@ def run(ctx, only=None):
                                           "failed_revalidation": g.exemption_failures},
         "stack_budget": None if not st else {"total_bytes": csm.budget(st, g)[0], "limit_bytes": csm.STACK_LIMIT, "per_class": csm.budget(st, g)[1],
                                              "classes": [{k: c[k] for k in ("name", "limit", "unit", "how", "fns")} for c in st.classes],
-                                             "transit_bytes": st.transit, "functions_outside_cycles": st.transit_n, "libc_allowance": csm.LIBC_ALLOWANCE,
+                                             "dag_total_bytes": st.dag_total, "dag_heaviest_path": st.dag_path, "scc_budgets": st.scc_budget,
+                                             "scc_reach_pairs": len(st.claimed), "module_call_edges": len(st.all_edges), "transit_bytes": st.transit, "functions_outside_cycles": st.transit_n, "libc_allowance": csm.LIBC_ALLOWANCE,
                                              "max_head": st.max_head, "inlined_everywhere": len(st.inlined), "dynamic_unbounded": st.unbounded,
                                              "reentry_sites": st.sites + [("gc->funcdef", "janet_mark_funcdef", st.funcdef_charged)],
                                              "variants": list(csm.SU_VARIANTS), "unrolled": st.unrolled, "pure_checkers": st.demoted},
